@@ -13,7 +13,7 @@ ACTIONX_WELL_EVENT = 1 << 20
 
 BODY = ["welopen", "wconprod", "wconinje", "weltarg", "wefac", "gconprod", "gconinje", "wgrupcon", "wtest", "wecon", "nextstep"]
 KINDS = ["actionx", "actionx", "welspecs", "compdat", "wconprod", "wconinje", "wconhist", "welopen", "weltarg", "wefac", "gefac",
-         "gruptree", "gconprod", "gconinje", "wgrupcon", "wlist", "wtest", "wecon", "misc", "udq"]
+         "gruptree", "gconprod", "gconinje", "wgrupcon", "wlist", "wtest", "wecon", "misc", "udq", "wellextra", "groupextra"]
 
 
 @st.composite
